@@ -265,8 +265,62 @@ def run(ctx):
                             "the slot of 'storage' then gives %r for a <cache> section with the imported type's key" % (order, o1[:2]),
                             {"schema_xml": xml, "lib": "<sectiontype name='cache'><key name='dir'/></sectiontype>", "order": order},
                             signature="C12:import-src-redefinition:accepted")
+        _directed_imports(ctx, pk)
     finally:
         pk.close()
     return core.finish(ctx, obligations, discharged, names, RULE,
                        "lake build ZCV.Props.C12 && lake env lean ZCV/Audit/C12.lean",
                        ["package import machinery (sys.path, __path__) is outside the model: packages are given to the model as their elaborated types"])
+
+
+def _directed_imports(ctx, pk):
+    """(a) '%import' only EXTENDS the vocabulary: a component defining a type name the schema already has is refused - also when
+    the schema's type has no keys or sections at all - and the abstract slot keeps admitting exactly the declared implementers;
+    (b) 'extends the vocabulary of that load only' on one loader object: a component that fails half-way (malformed XML after
+    its first implementer) leaves no implementer behind for the next load of that loader"""
+    import io
+    import os
+    import ZConfig
+    from ZConfig.loader import ConfigLoader
+    # (a)
+    for own in ("<sectiontype name='marker' implements='plugin'/>", "<sectiontype name='marker' implements='plugin'><key name='own'/></sectiontype>"):
+        xml = "<schema><abstracttype name='plugin'/>%s<multisection type='plugin' name='*' attribute='plugins'/></schema>" % own
+        clash = pk.add_component([])
+        with open(os.path.join(pk.root, clash, "component.xml"), "w") as f:
+            f.write("<component><sectiontype name='Marker'><key name='x'/></sectiontype></component>")
+        for text in ("%%import %s\n<marker/>\n" % clash, "%%import %s\n<marker>\n x 1\n</marker>\n" % clash):
+            out, cfg, _ = cfgrun.real_load(ZConfig.loadSchemaFile(io.StringIO(xml)), text, cfgstream.URL, reuse=False)
+            ctx.evaluations += 1
+            ctx.nontriv(("import-redefines", own, text))
+            if out[0] == "ok":
+                ctx.violate("'%%import' of a component that defines the type name 'marker' again (without 'implements') was accepted over the "
+                            "schema's own implementer %s: the slot of 'plugin' then admits the component's type" % own,
+                            {"schema_xml": xml, "component_xml": "<component><sectiontype name='Marker'><key name='x'/></sectiontype></component>",
+                             "text": text}, signature="C12:import-redefinition:accepted")
+    # (b)
+    xml = "<schema><abstracttype name='plugin'/><multisection type='plugin' name='*' attribute='plugins'/></schema>"
+    for kind, body in (("malformed-xml", "<component><sectiontype name='halfread' implements='plugin'><key name='k'/></sectiontype><oops</component>"),
+                       ("schema-error", "<component><sectiontype name='halfread' implements='plugin'><key name='k'/></sectiontype><sectiontype name='x' extends='nosuch'/></component>")):
+        broken = pk.add_component([])
+        with open(os.path.join(pk.root, broken, "component.xml"), "w") as f:
+            f.write(body)
+
+        def outcome(loader, text):
+            try:
+                cfg, _ = loader.loadFile(io.StringIO(text), cfgstream.URL)
+                return "ok:%d" % len(cfg.plugins)
+            except ZConfig.ConfigurationError:
+                return "rejected"
+            except Exception as e:
+                return "raised:" + type(e).__name__
+        texts = ["%%import %s\n<halfread/>\n" % broken, "<halfread/>\n", "%%import %s\n<halfread/>\n" % broken, "<halfread>\n k v\n</halfread>\n"]
+        ld = ConfigLoader(ZConfig.loadSchemaFile(io.StringIO(xml)))
+        reused = [outcome(ld, t) for t in texts]
+        fresh = [outcome(ConfigLoader(ZConfig.loadSchemaFile(io.StringIO(xml))), t) for t in texts]
+        ctx.evaluations += len(texts)
+        ctx.nontriv(("half-read-component", kind))
+        if reused != fresh:
+            ctx.violate("a component that fails half-way (%s): on one loader the loads %r give %r, with fresh loaders %r - the half-read "
+                        "implementer stayed in the loader's vocabulary" % (kind, texts, reused, fresh),
+                        {"schema_xml": xml, "component_xml": body, "texts": texts, "reused": reused, "fresh": fresh},
+                        signature="C12:half-read-component:vocabulary-kept")
